@@ -1,8 +1,72 @@
 package c18
-import ("testing";"os";"fmt")
+import ("testing";"os";"fmt";"strings";"sort";"encoding/json";"regexp";"pgregory.net/rapid";"verif/internal/dxbc")
 func TestProbe(t *testing.T){
  src,_:=os.ReadFile(os.Getenv("PROBE"))
- c:=testCase{Origin:"probe",WGSL:string(src),Entry:"main",Stage:os.Getenv("PROBE_STAGE"),SMMinor:0}
- o:=judge(&c)
- fmt.Println("class:",o.class,"ok:",o.ok,"blocks",o.blocks,"insts",o.insts); fmt.Println(o.msg); fmt.Println(o.panicMsg)
+ for i,prog:=range strings.Split(string(src),"//====") {
+  stage:="compute"
+  if strings.Contains(prog,"@vertex") {stage="vertex"}
+  if strings.Contains(prog,"@fragment") {stage="fragment"}
+  c:=testCase{Origin:"probe",WGSL:prog,Entry:"main",Stage:stage,SMMinor:0}
+  o:=judge(&c)
+  first:=strings.SplitN(strings.TrimSpace(prog),"\n",2)[0]
+  if o.container!=nil && o.container.PSV!=nil { fmt.Printf("   psv resources=%d\n",len(o.container.PSV.Resources)) }
+  fmt.Printf("#%d %s => class=%s ok=%v bbs=%d insts=%d %s %s\n",i,first,o.class,o.ok,o.blocks,o.insts,strings.ReplaceAll(o.msg,"\n"," | "),o.panicMsg)
+ }
 }
+
+func TestSurvey(t *testing.T){
+ sigs:=map[string]int{}; ex:=map[string]testCase{}
+ classes:=map[string]int{}
+ rapid.Check(t, func(rt *rapid.T){
+   c:=genProgram(rt)
+   o:=judge(&c)
+   classes[o.class]++
+   { f,_:=os.OpenFile("/tmp/c18out/survey.jsonl",os.O_APPEND|os.O_CREATE|os.O_WRONLY,0o644); b,_:=json.Marshal(map[string]any{"features":c.Features,"ok":o.ok,"class":o.class,"msg":o.msg,"stage":c.Stage,"len":len(c.WGSL),"insts":o.insts,"blocks":o.blocks}); f.Write(append(b,'\n')); f.Close() }
+   if o.class=="panic" { k:="PANIC "+shortPanic(o.panicMsg); sigs[k]++; if _,ok:=ex[k];!ok||len(c.WGSL)<len(ex[k].WGSL) {ex[k]=c} }
+   if strings.HasPrefix(o.class,"error:")||strings.HasPrefix(o.class,"gen-rejected") { k:=o.class; sigs[k]++; if _,ok:=ex[k];!ok||len(c.WGSL)<len(ex[k].WGSL) {ex[k]=c} }
+   if !o.ok { for _,l:=range strings.Split(o.msg,"\n") { k:=reNum.ReplaceAllString(reFn.ReplaceAllString(l,"function F:"),"N"); if len(k)>130 {k=k[:130]}; sigs[k]++; if _,ok:=ex[k];!ok||len(c.WGSL)<len(ex[k].WGSL) {ex[k]=c} } }
+ })
+ os.MkdirAll("/tmp/c18out/survey",0o755)
+ var ks []string; for k:=range sigs {ks=append(ks,k)}; sort.Strings(ks)
+ for i,k:=range ks { fmt.Printf("%4d  [%d] %s\n",sigs[k],i,k); b,_:=json.MarshalIndent(ex[k],""," "); os.WriteFile(fmt.Sprintf("/tmp/c18out/survey/%d.json",i),b,0o644); os.WriteFile(fmt.Sprintf("/tmp/c18out/survey/%d.wgsl",i),[]byte("// "+k+"\n"+ex[k].WGSL),0o644) }
+ fmt.Println(classes)
+}
+
+func TestDeterminismProbe(t *testing.T){
+ src,_:=os.ReadFile(os.Getenv("PROBE"))
+ for i,prog:=range strings.Split(string(src),"//====") {
+  stage:="compute"
+  if strings.Contains(prog,"@vertex") {stage="vertex"}
+  if strings.Contains(prog,"@fragment") {stage="fragment"}
+  c:=testCase{Origin:"probe",WGSL:prog,Entry:"main",Stage:stage,SMMinor:0}
+  distinct:=map[string]int{}
+  var first []byte
+  for k:=0;k<40;k++ { m,_:=lower(&c); if m==nil {break}; out,err,_:=compile(m,options(&c)); if err!=nil {fmt.Println(err);break}; distinct[string(out)]++; if first==nil {first=out} else if string(first)!=string(out) && len(distinct)==2 && distinct[string(out)]==1 { cont,_:=dxbcParse(first); c2,_:=dxbcParse(out); d:=20+firstDiff(first[20:],out[20:]); fmt.Println("  first diff at",d,"parts:",partAt(cont,d),partAt(c2,d),len(first),len(out)) } }
+  fmt.Printf("#%d %s: %d distinct outputs over 40 runs\n",i,strings.SplitN(strings.TrimSpace(prog),"\n",2)[0],len(distinct))
+ }
+}
+func dxbcParse(b []byte) (*dxbc.Container, error) { return dxbc.ParseContainer(b) }
+func partAt(c *dxbc.Container, off int) string { for _,p:=range c.Parts { if off>=int(p.Offset) && off<int(p.Offset)+8+int(p.Size) { return fmt.Sprintf("%s+%d",p.FourCC,off-int(p.Offset)-8) } }; return "header" }
+
+func diffBlocks(path string, a, b *dxbc.Block) bool {
+ for i:=0;i<len(a.Items)&&i<len(b.Items);i++ {
+  x,y:=a.Items[i],b.Items[i]
+  if (x.Block!=nil)!=(y.Block!=nil) { fmt.Println("   shape differs at",path,i); return true }
+  if x.Block!=nil { if diffBlocks(fmt.Sprintf("%s/%d[%d]",path,x.Block.ID,i),x.Block,y.Block) {return true}; continue }
+  if x.Rec.Code!=y.Rec.Code || fmt.Sprint(x.Rec.Ops)!=fmt.Sprint(y.Rec.Ops) { fmt.Printf("   first differing record at %s item %d: code %d ops %v  VS code %d ops %v\n",path,i,x.Rec.Code,x.Rec.Ops,y.Rec.Code,y.Rec.Ops); return true }
+ }
+ if len(a.Items)!=len(b.Items) { fmt.Println("   item count differs at",path); return true }
+ return false
+}
+func TestDiffProbe(t *testing.T){
+ src,_:=os.ReadFile(os.Getenv("PROBE"))
+ st:="vertex"; if strings.Contains(string(src),"@compute") {st="compute"}
+ c:=testCase{Origin:"probe",WGSL:string(src),Entry:"main",Stage:st,SMMinor:0}
+ var first []byte
+ for k:=0;k<60;k++ { m,_:=lower(&c); out,_,_:=compile(m,options(&c)); if first==nil {first=out;continue}; if string(first)!=string(out) {
+   c1,_:=dxbc.ParseContainer(first); c2,_:=dxbc.ParseContainer(out)
+   diffBlocks("",c1.Module.Stream.Top[0],c2.Module.Stream.Top[0]); return } }
+ fmt.Println("no difference found")
+}
+
+var reFn = regexp.MustCompile(`function \S+:`)
